@@ -22,6 +22,13 @@ def canon_text(text):
         body = re.sub(re.escape(n) + r"\b", "_@%d" % i, body)
     return body
 
+def canon_err(e):
+    """the error of a rejected compile, without ANSI colours and without the 'Compiling <path>' banner
+    (which spells the path as it was given on the command line)"""
+    e = re.sub(r"\x1b\[[0-9;]*m", "", e or "")
+    m = re.search(r"ERROR:.*", e, re.S)
+    return (m.group(0) if m else e).strip()[:120]
+
 def defined_names(text, synth):
     out = []
     for l in text.split("\n"):
@@ -31,11 +38,26 @@ def defined_names(text, synth):
 
 def include_race(case):
     """some template is provided by two include directories: their order decides which one is compiled"""
-    g = case["_gen"]; incs = list(g.includes)
+    g = case["_gen"]
+    if g is None: return False
+    incs = list(g.includes)
     for (d, name) in g.items:
         if d in incs and any((e, name) in g.items for e in incs[incs.index(d) + 1:]):
             return True
     return False
+
+def reserved_target(rng):
+    """a component that mentions an anonymous name explicitly: whether _AnonK exists depends on how many
+    anonymous sequences earlier compilations created, so the compiler must reject the name outright"""
+    k = rng.choice([0, 1, 2])
+    kind = rng.choice(["ref", "def", "port"])
+    lines = ["declare component proj: a -> a" if kind != "port" else "declare component proj: _Anon%d -> a" % k,
+             'sequence a = "3N"', 'strand t = "2S" a "2W"']
+    if kind == "ref": lines.append("strand s = _Anon%d a" % k)
+    elif kind == "def": lines.append('sequence _Anon%d = "4N"' % (k + 2)); lines.append('strand s = "1N" "1N" "1N" "1N" a')
+    else: lines.append("strand s = a a")
+    lines += ["structure T = t : 7.", "structure S = s : %d." % (5 if kind == "ref" else 7 if kind == "def" else 6)]
+    return {"files": {"proj.comp": "\n".join(lines) + "\n"}, "entries": None, "includes": [], "base": "proj", "args": [], "_gen": None, "_top": None}
 
 def gen_target(rng, want_race):
     for _ in range(200):
@@ -68,7 +90,8 @@ def run(tier, seed, build):
         model_reqs = []; model_where = []
         records = []
         for ti in range(ntargets):
-            target = gen_target(rng, want_race=(ti % 3 == 0))     # every third target: an import provided by two include directories
+            target = reserved_target(rng) if ti % 4 == 1 else gen_target(rng, want_race=(ti % 3 == 0))     # every third target: an import provided by two include directories; every fourth: a reserved name
+            dist["reserved_name"] = dist.get("reserved_name", 0) + (1 if target["_gen"] is None else 0)
             dist["include_race"] = dist.get("include_race", 0) + (1 if include_race(target) else 0)
             others = [c02.gen_case(rng) for _ in range(3)]
             troot = os.path.join(wd, "t%d" % ti, "pT")
@@ -77,7 +100,7 @@ def run(tier, seed, build):
             for k, o in enumerate(others):
                 r = os.path.join(wd, "t%d" % ti, "pO%d" % k, "pT"); write_project(r, o["files"]); oroots.append(r)
             fixed = None
-            if rng.random() < 0.5:
+            if target["_gen"] is not None and rng.random() < 0.5:
                 try:
                     den, _ = pepper.expected_system_den(target["_gen"], target["_top"], target["args"], 0)
                     ents = [e for e in c12.gen_fixed(rng, den) if "_Anon" not in e[1]]
@@ -112,7 +135,7 @@ def run(tier, seed, build):
                         dist["compilations"] += len(res)
                         for job, r in zip(jobs[nearlier:], res[nearlier:]):
                             be = "pil" if job["synth"] else "des"
-                            outs.setdefault(be, []).append((label, r.get("outcome"), canon_text(r["text"]) if r.get("outcome") == "ok" else r.get("error", "")[:80], r))
+                            outs.setdefault(be, []).append((label, r.get("outcome"), canon_text(r["text"]) if r.get("outcome") == "ok" else canon_err(r.get("error", "")), r))
                             if r.get("outcome") == "ok":
                                 names = defined_names(r["text"], job["synth"])
                                 if len(set(names)) != len(names):
@@ -120,7 +143,7 @@ def run(tier, seed, build):
                                     if not (be == "des" and all(re.search(r"-i\d+-", n[1]) and n[0] == "structure" for n in dup)):   # known finding of C03
                                         failures.append({"kind": "predicate", "key": "duplicate-names", "summary": "object names are not unique within one %s output: %r" % (be, dup), "replay": {"files": target["files"], "history": label}})
                                 # model comparison (needs the file table with the invocation prefix)
-                                if where == "root" and be == "pil" and nearlier == 0 and hs == seeds[0]:
+                                if where == "root" and be == "pil" and nearlier == 0 and hs == seeds[0] and target["entries"] is not None:
                                     model_reqs.append(c02.model_req(target, r["ctr0"], fixed or [])); model_where.append((ti, r))
             for be, lst in outs.items():
                 ref = lst[0]
@@ -148,7 +171,7 @@ def run(tier, seed, build):
     finally:
         shutil.rmtree(wd, ignore_errors=True)
     return {"evaluations": dist["compilations"], "distinct_nontrivial": len(nontrivial),
-            "rule": "%d target projects (system libraries as C02, half with a fixed-sequence file using S/N over degenerate constraints) x hash seeds %r x {0, 2(+)} earlier compilations of other projects with the same relative file names in the same process x invocation from the project root / its parent x {pil, des}; every third target has an import provided by two include directories (their order must decide); outputs must be identical modulo the timestamp line and a consistent renumbering of anonymous names, names within an output unique; one run per target compared with the model. Non-trivial = (target, back-end) that compiles" % (ntargets, seeds),
+            "rule": "%d target projects (system libraries as C02, half with a fixed-sequence file using S/N over degenerate constraints) x hash seeds %r x {0, 2(+)} earlier compilations of other projects with the same relative file names in the same process x invocation from the project root / its parent x {pil, des}; every third target has an import provided by two include directories (their order must decide), every fourth is a component that defines or mentions a name of the reserved form _AnonK (must be rejected whatever was compiled before); outputs must be identical modulo the timestamp line and a consistent renumbering of anonymous names, names within an output unique; one run per target compared with the model. Non-trivial = (target, back-end) that compiles" % (ntargets, seeds),
             "samples": samples, "distribution": dist, "failures": failures}
 
 def replay(path):
